@@ -278,6 +278,7 @@ func witnessOf(r runOut) map[string]interface{} {
 	if r.o.Res != nil && r.o.Res.Run != nil {
 		w["stdout"] = r.o.Res.Run.Stdout
 		w["live"] = liveStrings(r.o.Res.Run.Live)
+		w["run_end"] = fmt.Sprintf("quiescent=%v parked_outside_hooks=%v watchdog=%v overrun=%v premature=%v elapsed_us=%d events=%d", r.o.Res.Run.Quiescent, r.o.Res.Run.ParkedOutsideHooks, r.o.Res.Run.Watchdog, r.o.Res.Run.Overrun, r.o.Res.Run.Premature, r.o.Res.Run.ElapsedUs, r.o.Res.Run.Events)
 	}
 	return w
 }
